@@ -243,7 +243,11 @@ def job_series(job):
                     out['skipped_inverse_checks'] = out.get('skipped_inverse_checks', 0) + 1
                 rt = ('skipped', None) if heavy else _safe(lambda: x.outertan())
                 ex = ('skipped', None) if heavy else _safe(lambda: x.outersin() * x.outercos().inv())
-                if rt[0] != ex[0] or (rt[0] == 'value' and not req(O.nz(fr.mv_to_ref(rt[1])), O.nz(fr.mv_to_ref(ex[1])))):
+                # the identity speaks about operands whose outercos has an inverse: where it has none (ZeroDivisionError on the right) the
+                # statement does not say what outertan returns (the generated quotient may cancel the vanishing factor), not comparable
+                if ex[0] == 'raise' and str(ex[1]).startswith('ZeroDivisionError'):
+                    out['outertan_singular_skipped'] = out.get('outertan_singular_skipped', 0) + 1
+                elif rt[0] != ex[0] or (rt[0] == 'value' and not req(O.nz(fr.mv_to_ref(rt[1])), O.nz(fr.mv_to_ref(ex[1])))):
                     fail({'config': cfg, 'what': 'outertan != outersin * inverse(outercos)', 'x': showmv(ks, x.values())})
             # ---- outertan of operands whose even part is not a scalar: mixed vector + bivector (d >= 3), a non-simple bivector on
             # disjoint generator pairs (d >= 4): outercos = 1 + N with N ^ N == 0 but in general N * N != 0
@@ -261,7 +265,9 @@ def job_series(job):
                     warnings.simplefilter('ignore')
                     rt = _safe(lambda: xd.outertan())
                     ex = _safe(lambda: xd.outersin() * xd.outercos().inv())
-                if rt[0] != ex[0] or (rt[0] == 'value' and not req(O.nz(fr.mv_to_ref(rt[1])), O.nz(fr.mv_to_ref(ex[1])))):
+                if ex[0] == 'raise' and str(ex[1]).startswith('ZeroDivisionError'):
+                    out['outertan_singular_skipped'] = out.get('outertan_singular_skipped', 0) + 1
+                elif rt[0] != ex[0] or (rt[0] == 'value' and not req(O.nz(fr.mv_to_ref(rt[1])), O.nz(fr.mv_to_ref(ex[1])))):
                     fail({'config': cfg, 'what': 'outertan != outersin * inverse(outercos)', 'x': showmv(dk, xd.values()), 'got': str(rt)[:200], 'expected': str(ex)[:200]})
             # ---- exp of a simple element (squares to a scalar): blade of every sign of square, numeric and symbolic
             K = rng.choice([k for k in range(1, 2 ** d)])
@@ -363,7 +369,10 @@ def job_series(job):
                     cands.append(((kp, kneg), mv_from(alg, (kp, kneg), [1.0, 2.0])))          # squared norm 1 - 4 < 0
             for cks, cy in cands:
                 nsq = todict(cy.normsq())
-                if set(O.nz(nsq)) <= {0} and nsq.get(0, 0) != 0:
+                # positive squared norm: as before (a stored zero pseudoscalar part included); negative squared norm: only when the
+                # squared norm is stored as a pure scalar (with a stored zero dual part the Study-number root of a negative scalar part is
+                # outside what the statement covers - the unchanged code raises ZeroDivisionError there)
+                if set(O.nz(nsq)) <= {0} and (nsq.get(0, 0) > 0 or (nsq.get(0, 0) < 0 and set(nsq) <= {0})):
                     out['evaluations'] += 1
                     with warnings.catch_warnings():
                         warnings.simplefilter('ignore')
